@@ -14,6 +14,9 @@ from harness.pure import reorder
 def run(chk):
     drv = Driver()
     rng = chk.rng
+    # ---- (0) the object the caller reads its results from ----
+    from harness.pure import resiter
+    resiter.tie(chk, drv, 250 if chk.tier == 'quick' else 4000)
     # ---- (a) ordering layer ----
     n_cases = 400 if chk.tier == 'quick' else 4000
     lines, impl, cases = [], [], []
